@@ -200,6 +200,36 @@ def check_c07(seed, tier):
         finally:
             wipe_user_cache()
             shutil.rmtree(stem, ignore_errors=True)
+    # sibling product directories whose names differ only AFTER a character that has a meaning in URLs (`#`, `%`, `&`, `;`, `=`,
+    # `+`, `@`, a space): images of the same name, different content — a cache made for one must never serve the other
+    pairs = [("scene #1", "scene #2"), ("x%231", "x%232"), ("a&b=1", "a&b=2"), ("pro duct;v1", "pro duct;v2"), ("u@h+1", "u@h+2")]
+    for a_name, b_name in ([pairs[0], rng.choice(pairs[1:])] if tier == "quick" else pairs):
+        level = rng.choice(["1.1", "1.5"])
+        cfg_a = {"seed": rng.randrange(10**9), "level": level, "images": [("HH", None)], "n_lines": rng.randint(2, 4), "n_pixels": 2}
+        cfg_b = dict(cfg_a, seed=rng.randrange(10**9), n_lines=cfg_a["n_lines"] + 1)
+        prod_a, prod_b = products.build(cfg_a), products.build(cfg_b)
+        stem = tempfile.mkdtemp(prefix="siblings-", dir=common.SCRATCH)
+        pa, pb = os.path.join(stem, a_name), os.path.join(stem, b_name)
+        wipe_user_cache()
+        try:
+            synth.write_product(prod_a, pa)
+            synth.write_product(prod_b, pb)
+            for form in ("path", "file-url"):
+                evals += 1
+                distinct.add(("sibling-roots", a_name, form))
+                case = {"cfg_a": cfg_a, "cfg_b": cfg_b, "directories": [a_name, b_name], "given_as": form,
+                        "scenario": "cache created for the first directory, the second opened with use_cache=True"}
+                qa, qb = (pa, pb) if form == "path" else ("file://" + pa, "file://" + pb)
+                _open(qa, use_cache=False, create_cache=True)
+                d = treecmp.diff(fp(_open(qb, use_cache=False)), fp(_open(qb, use_cache=True)))
+                if d:
+                    viol.append({"case": case, "what": "a cache made for another directory was used: " + d, "key": "cache-differs:local"})
+                wipe_user_cache()
+        except Exception as e:  # noqa: BLE001
+            viol.append({"case": {"directories": [a_name, b_name]}, "what": f"{type(e).__name__}: {e}"[:300], "key": common.failure_site(e)})
+        finally:
+            wipe_user_cache()
+            shutil.rmtree(stem, ignore_errors=True)
     return {"name": "oracle:C07 cache transparency", "evaluations": evals, "distinct": len(distinct), "violations": viol, "samples": samples}
 
 
@@ -483,6 +513,55 @@ def check_c10(seed, tier):
                 samples.append({"cfg": cfg, "history": ops[:6]})
         finally:
             wipe_user_cache()
+            clean()
+    # a user cache location that cannot be created or written (a regular file where a directory is expected — what a read-only
+    # or over-quota home amounts to, and demonstrable as root): with `create_cache=True` the open may fail or succeed, but it
+    # never touches the product directory, and every open that returns returns the tree of a fresh uncached one
+    for level in (("1.1",) if tier == "quick" else ("1.1", "1.5")):
+        cfg = {"seed": rng.randrange(10**9), "level": level, "images": [("HH", None), ("VV", None)], "n_lines": 3, "n_pixels": 2}
+        prod = products.build(cfg)
+        path, clean = products.place(prod, "local")
+        # (the reader fixes its cache root when it is imported: make THAT location unusable)
+        cache_dir = os.path.join(os.environ["XDG_CACHE_HOME"], "xarray-ceos-alos2")
+        try:
+            ref = fp(_open(path, use_cache=False, records_per_chunk=2))
+            before = dir_hash(path)
+            for variant in ("cache-root-is-a-file", "cache-root-parent-is-a-file"):
+                wipe_user_cache()
+                if variant == "cache-root-is-a-file":
+                    blockers = [cache_dir]
+                else:
+                    shutil.rmtree(os.environ["XDG_CACHE_HOME"], ignore_errors=True)
+                    blockers = [os.environ["XDG_CACHE_HOME"]]
+                for b_ in blockers:
+                    os.makedirs(os.path.dirname(b_), exist_ok=True)
+                    with open(b_, "w") as f_:
+                        f_.write("not a directory")
+                for opts in ({"use_cache": True, "create_cache": True}, {"use_cache": False, "create_cache": True}, {"use_cache": True}):
+                    evals += 1
+                    distinct.add(("unwritable-cache", level, variant, json.dumps(opts)))
+                    case = {"cfg": cfg, "user_cache_location": variant, "options": opts}
+                    try:
+                        d = treecmp.diff(ref, fp(_open(path, records_per_chunk=2, **opts)))
+                        if d:
+                            viol.append({"case": case, "what": "tree differs from a fresh uncached open: " + d})
+                    except OSError:
+                        pass   # failing is fine (the unchanged reader does): what matters is what it leaves behind
+                    except Exception as e:  # noqa: BLE001
+                        viol.append({"case": case, "what": f"{type(e).__name__}: {e}"[:300], "key": common.failure_site(e)})
+                    after = dir_hash(path)
+                    if after != before:
+                        new_ = sorted(set(after) - set(before))
+                        viol.append({"case": case, "what": f"open_alos2 modified the product directory while the user cache location is unusable: new/changed entries {new_ or sorted(k_ for k_ in before if after.get(k_) != before[k_])}"})
+                        for k_ in new_:
+                            os.remove(os.path.join(path, k_))
+                for b_ in blockers:
+                    os.remove(b_)
+        finally:
+            for b_ in (cache_dir, os.environ["XDG_CACHE_HOME"]):
+                if os.path.isfile(b_):
+                    os.remove(b_)
+            os.makedirs(os.environ["XDG_CACHE_HOME"], exist_ok=True)
             clean()
     # the product is the directory, not the way its path is written: every spelling (trailing slash, `.` / `..` segments, doubled
     # slash, symlink, `file://` URL, relative to the working directory, `pathlib.Path`) gives the tree of the absolute path,
